@@ -302,7 +302,7 @@ def run_history(hist, acc):
 
 # ---- part 2: two concurrent iterators --------------------------------------------------------------
 
-SCEN = ["flagged_reuse", "static", "flagged_two"]
+SCEN = ["flagged_reuse", "static", "flagged_two", "iter_vs_isrun"]
 
 
 def run_schedule(scn, preempt, first):
@@ -320,14 +320,32 @@ def run_schedule(scn, preempt, first):
                 w.apply(("spawn", pid, False))
                 o = [x for x in objs if x.pid == pid][0]
                 assert o.is_running() is False
+        stale = None
+        if scn == "iter_vs_isrun":
+            # pid 9 flagged beforehand (so the refresh has work to do), pid 8 recycled but not yet noticed: its object is
+            # asked is_running() by the other thread while the iterator refreshes the cache
+            for pid in (8, 9):
+                w.apply(("vanish", pid))
+                w.apply(("spawn", pid, False))
+            assert [x for x in objs if x.pid == 9][0].is_running() is False
+            stale = [x for x in objs if x.pid == 8][0]
         sch = S.Sched(env["codes"], preempt=preempt, first=first)
 
         def prog(i):
             def f():
+                if scn == "iter_vs_isrun" and i == 1:
+                    return ("isrun", stale.is_running())
                 return [p.pid for p in ps.process_iter()]
             return f
         sch.run([prog(0), prog(1)])
         listed = sorted(w.t.procs)
+        if scn == "iter_vs_isrun":
+            # quiescent epilogue: the entry found recycled must be replaced by a fresh object
+            later = [list(ps.process_iter()) for _ in range(3)]
+            out["stale_yielded"] = [n for n, it in enumerate(later) if any(x is stale for x in it)]
+            out["fresh_by_third"] = any(x.pid == 8 and x is not stale for x in later[2])
+            out["isrun"] = sch.results[1][1][1] if sch.results[1] and sch.results[1][0] == "ok" else None
+    sch.out = out
     return sch, listed
 
 
@@ -343,6 +361,16 @@ def run_sched_case(case, acc, seen):
             viols.append(("scheduler_deadlock", ctx + f" {r}"))
         elif r[0] == "exc":
             viols.append((f"concurrent_iter_exception:{type(r[1]).__name__}", ctx + f" thread {i}: {r[1]!r}"))
+        elif isinstance(r[1], tuple) and r[1] and r[1][0] == "isrun":
+            acc.count("concurrent_is_running_calls")
+            if r[1][1] is not False:
+                viols.append(("is_running_True_for_recycled_pid", ctx + f" thread {i}: {r[1]}"))
+            o = getattr(sch, "out", {})
+            if o.get("stale_yielded"):
+                viols.append(("stale_object_yielded_after_is_running_found_it_recycled",
+                              ctx + f": iterations {o['stale_yielded']} after the threads finished still yield the recycled entry"))
+            elif not o.get("fresh_by_third"):
+                viols.append(("recycled_entry_not_replaced", ctx + " no fresh object for the pid by the third later iteration"))
         else:
             seq = r[1]
             if seq != sorted(seq) or len(set(seq)) != len(seq):
@@ -351,7 +379,7 @@ def run_sched_case(case, acc, seen):
                 viols.append(("concurrent_iter_unlisted_pid", ctx + f" thread {i}: {seq} listed={listed}"))
             if set(seq) != set(listed):
                 mech = "concurrent_iter_omits_listed_pid"
-                if case["scn"].startswith("flagged"):
+                if case["scn"].startswith("flagged") or case["scn"] == "iter_vs_isrun":
                     mech += ":after_flagged_reuse"
                 viols.append((mech, ctx + f" thread {i}: {seq} listed={listed}"))
     h = (case["scn"], sch.interleaving_hash())
@@ -523,6 +551,58 @@ def run_threads_case(case, acc):
     acc.case(dict(kind="threads", **case), overl > 0, viols)
 
 
+def run_pid_exists_faults(acc):
+    """pid_exists(n) while the process goes away: removed (or turned into a zombie) just before each of the accesses the
+    call performs - the status file opened but not yet read answers ESRCH. Never an exception; any bool is acceptable for
+    the racing pid, the exact answer for the others."""
+    env = setup()
+    ps, H = env["ps"], env["H"]
+
+    def world():
+        w = H.World(ps)
+        w.__enter__()
+        w.apply(("spawn", 7, False))
+        w.apply(("thread", 7, 100))
+        w.apply(("spawn", 9, False))
+        return w
+    for target, victim in ((7, 7), (100, 7), (9, 7), (55, 7)):
+        w = world()
+        try:
+            n0 = len(w.vk.log)
+            base = ps.pid_exists(target)
+            n = len(w.vk.log) - n0
+        finally:
+            w.__exit__(None, None, None)
+        for how in ("vanish", "exit"):
+            for k in range(n + 1):
+                w = world()
+                viols = []
+                try:
+                    k0 = len(w.vk.log)
+
+                    def fault(vk_, kind, path, w=w, how=how):
+                        if victim in w.t.procs:
+                            w.apply((how, victim))
+                        return None
+                    w.vk.plan[k0 + k] = fault
+                    acc.count("pid_exists_fault_cases")
+                    try:
+                        got = ps.pid_exists(target)
+                    except Exception as e:  # noqa: BLE001
+                        viols.append((f"pid_exists_exception:{type(e).__name__}:process_gone_midcall",
+                                      f"pid_exists({target}) raised {e!r}: pid {victim} {how} before access #{k} of {n}"))
+                    else:
+                        if not isinstance(got, bool):
+                            viols.append(("pid_exists_not_bool", f"pid_exists({target}) -> {got!r}"))
+                        elif target not in (7, 100) and got != base:
+                            viols.append(("pid_exists_wrong", f"pid_exists({target}) -> {got} want {base}: unrelated pid {victim} {how} at #{k}"))
+                        elif how == "exit" and target == 7 and got is not True:
+                            viols.append(("pid_exists_wrong", f"pid_exists(7) -> {got} although pid 7 stays listed as a zombie (exit at #{k})"))
+                finally:
+                    w.__exit__(None, None, None)
+                acc.case(dict(kind="pid_exists_fault", target=target, how=how, k=k), True, viols)
+
+
 def run_probe_race(acc):
     """Deterministic form of what part 3 meets by chance: a listed process goes away just before one of its files is
     opened (ENOENT) and its pid is taken by a new process before the next access - the existence probe of
@@ -616,6 +696,7 @@ def run_shard(shard):
         for h in fixed_histories():
             run_history(h, acc)
         run_probe_race(acc)
+        run_pid_exists_faults(acc)
     elif k == "threads":
         for i in range(shard["count"]):
             run_threads_case(dict(seed=shard["seed"], i=shard["part"] * 1000 + i, threads=2 + i % 2, ops=150, pool=8 + 4 * (i % 3)), acc)
@@ -645,6 +726,8 @@ def run_shard(shard):
                 run_threads_case({k_: v for k_, v in case.items() if k_ != "kind"}, acc)
             elif case.get("kind") == "probe_race":
                 run_probe_race(acc)
+            elif case.get("kind") == "pid_exists_fault":
+                run_pid_exists_faults(acc)
             else:
                 run_sched_case(case, acc, seen)
     return acc.result()
